@@ -43,7 +43,7 @@ def run(ctx):
             lib.cond_guarded(ctx, '1g write-only-with-create', lv, s, 'metadata is written only when the create flag is set', params=[2], want_edge='nonzero')
             lib.result_guards(ctx, '1h write-only-if-absent', lv, lm, s, 'metadata is written only depending on the outcome of load_metadata (absent)')
         # every field mismatch is an error: the comparison loop returns Err on `!=`
-        ne = [bi for bi, t in lv.calls() if call_matches(t, ['std::cmp::PartialEq::ne', 'std::cmp::PartialEq::eq', 're:ColumnOptions as std::cmp::PartialEq>::(eq|ne)$'])]
+        ne = [(fb.path, bi) for fb in lib.family(F, lv.path) for bi, t in fb.calls() if call_matches(t, ['std::cmp::PartialEq::ne', 'std::cmp::PartialEq::eq', 're:ColumnOptions as std::cmp::PartialEq>::(eq|ne)$'])]
         ctx.ob('1i options-compared', 'K1-must-pass', lv.path, 'stored and requested column options are compared with ColumnOptions equality', len(ne) >= 1, '')
         lens = [bi for bi in lv.normal_blocks() for s in lv.blocks[bi]['s'] if s['k'] == 'assign' and s['r']['k'] == 'bin' and s['r']['op'] in ('Ne', 'Eq')]
         ctx.ob('1j column-count-compared', 'K1-must-pass', lv.path, 'the number of columns is compared', len(lens) >= 1, '')
@@ -122,9 +122,10 @@ def run(ctx):
     wf, rf = ctx.body('options::Options::write_metadata_file_with_version'), ctx.body('options::Options::load_metadata_file')
     if wf and rf:
         wk = set()
-        for bi, tk, raw in lib.fmt_templates(wf):
-            if tk and tk[0][0] == 'lit':
-                wk.add(re.sub(r'[=]$', '', tk[0][1]))
+        for fb in lib.family(F, wf.path):          # the function, its closures and private helpers
+            for bi, tk, raw in lib.fmt_templates(fb):
+                if tk and tk[0][0] == 'lit':
+                    wk.add(re.sub(r'[=]$', '', tk[0][1]))
         rk = set(s for bi, s in lib.str_consts(rf) if re.fullmatch(r'[a-z]+', s))
         ctx.ob('3f metadata-file-keys-agree', 'K8-table', wf.path, 'the metadata file writer emits version= / salt= / col<i>= and the reader recognises exactly those keys', wk == {'version', 'salt', 'col'} and {'version', 'salt', 'col'} <= rk, 'writer %s reader %s' % (sorted(wk), sorted(rk)))
     # the reader keeps the order of the col<i>= lines (the writer emits them in index order and the reader ignores <i>)
